@@ -27,6 +27,15 @@ def _config(ctx, idx):
         env = TimeLimit(env0, n)
         desc = [{"w": "timeLimit", "n": n}]
     policy = random_ac_policy(rng, env0, n_counts=3)
+    foreign_policy_space = None
+    if box and rng.random() < 0.4:
+        # a policy made for ANOTHER variant of the task (same action shape, other bounds — a wider or a narrower
+        # actuator range): the environment being rolled out decides what its action is clipped to
+        foreign_policy_space = [(-7.0, 7.0), (-0.05, 0.05), (-0.3, 9.0)][int(rng.integers(3))]
+        from lerax.space import Box as _Box
+        policy = eqx.tree_at(lambda p: p.action_space, policy,
+                             _Box(foreign_policy_space[0], foreign_policy_space[1], shape=env0.action_space.shape))
+        ctx.count("policy-advertises-other-action-bounds")
     E = int(rng.choice([1, 3]))
     T = int(rng.integers(4, ctx.budget(20, 48)))
     gamma = float(rng.choice([0.5, 0.9, 0.99, 1.0]))
@@ -40,9 +49,16 @@ def _config(ctx, idx):
         algo = REINFORCE(num_envs=E, num_steps=T, gamma=gamma)
         lam = 1.0
     key = jr.key(int(rng.integers(0, 2**31)))
+    tab, pol, clip = env0.describe(), policy_desc(policy), clip_desc(env)
+    term_states = np.nonzero(np.asarray(env0.term))[0]
+    if len(term_states) and rng.random() < 0.5:
+        # a critic that is undefined (NaN / infinite) exactly on TERMINAL states — states nobody ever acts in, whose
+        # value a faithful record never uses ("a true termination never bootstraps"); the model keeps the finite table
+        poison = float(rng.choice([np.nan, np.inf, -np.inf]))
+        policy = eqx.tree_at(lambda p: p.values, policy, policy.values.at[jnp.asarray(term_states)].set(poison))
+        ctx.count("critic-undefined-on-terminal-states")
     pre, post, buf, _ = collect(algo, env, policy, key)
 
-    tab, pol, clip = env0.describe(), policy_desc(policy), clip_desc(env)
     n_noise = int(env0.T.shape[2])
     evaluate = jax.jit(jax.vmap(lambda st, o, a, m: policy.evaluate_action(st, o, a, action_mask=m)[1:3]))
     for e in range(E):
